@@ -4,6 +4,7 @@ package main
 // LoadFromSnapshot.
 
 import (
+	"sort"
 	"context"
 	"fmt"
 	"strings"
@@ -41,6 +42,19 @@ func (l *racingLog) Len() int                                   { l.tick(); retu
 func (l *racingLog) GetEntries() logiface.IPFSLogOrderedEntries { l.tick(); return l.Log.GetEntries() }
 func (l *racingLog) Values() logiface.IPFSLogOrderedEntries     { l.tick(); return l.Log.Values() }
 
+// queueNames: what the replicator still had to fetch when the snapshot was saved (it is saved along)
+func (w *World) queueNames(p int) string {
+	var out []string
+	for _, c := range w.stores[p].Replicator().GetQueue() {
+		out = append(out, w.nameOfHash(c))
+	}
+	sort.Strings(out)
+	if len(out) == 0 {
+		return "-"
+	}
+	return strings.Join(out, ",")
+}
+
 func guarded(f func() error) (res string) {
 	defer func() {
 		if r := recover(); r != nil {
@@ -74,7 +88,7 @@ func (w *World) execSnapOp(ctx context.Context, toks []string) (bool, error) {
 	case "snapsave":
 		p := atoi(toks[1])
 		res := guarded(func() error { _, err := basestore.SaveSnapshot(ctx, w.stores[p]); return err })
-		w.printf("snapsaved %d %s\n", p, res)
+		w.printf("snapsaved %d %s queue=%s\n", p, res, w.queueNames(p))
 	case "snapsaverace":
 		// snapsaverace p n : SaveSnapshot while up to n writes by p land, one before each look at the log
 		p := atoi(toks[1])
@@ -97,7 +111,7 @@ func (w *World) execSnapOp(ctx context.Context, toks []string) (bool, error) {
 			_, err := basestore.SaveSnapshot(ctx, &racingStore{Store: w.stores[p], log: rl})
 			return err
 		})
-		w.printf("snapsaved %d %s race=%d\n", p, res, k)
+		w.printf("snapsaved %d %s race=%d queue=%s\n", p, res, k, w.queueNames(p))
 	case "restartsnap":
 		// a fresh instance on the same keystore and cache, reopening the database and loading the snapshot
 		p := atoi(toks[1])
